@@ -6,7 +6,7 @@ static FILE: OnceLock<Vec<Value>> = OnceLock::new();
 
 fn load() -> &'static Vec<Value> {
     FILE.get_or_init(|| {
-        let p = std::env::var("VERIF_KNOWN").unwrap_or_else(|_| "/verif/known_findings.json".to_string());
+        let p = std::env::var("VERIF_KNOWN").unwrap_or_else(|_| format!("{}/known_findings.json", crate::util::root()));
         match std::fs::read_to_string(&p) {
             Ok(s) => match serde_json::from_str::<Value>(&s) {
                 Ok(v) => v.get("findings").and_then(|f| f.as_array()).cloned().unwrap_or_default(),
